@@ -14,6 +14,9 @@ Open Scope N_scope.
 Definition pinj (P : bytes -> Prop) : Prop :=
   forall p1 p2 r1 r2, P p1 -> P p2 -> p1 ++ r1 = p2 ++ r2 -> p1 = p2 /\ r1 = r2.
 
+Lemma Some_inj {A} (a b : A) : Some a = Some b -> a = b.
+Proof. intro E. now injection E. Qed.
+
 (* ---------- integers ---------- *)
 Lemma be_low_rev n : forall x acc, be_low n x acc = rev (le_bytes n x) ++ acc.
 Proof.
@@ -52,22 +55,20 @@ Lemma msgp_uint_inj x y r1 r2 :
   x < 2 ^ 64 -> y < 2 ^ 64 -> msgp_uint x ++ r1 = msgp_uint y ++ r2 -> x = y /\ r1 = r2.
 Proof.
   intros Bx By E.
-  assert (2 ^ 64 = 18446744073709551616) as P64 by reflexivity. rewrite P64 in Bx, By.
+  assert (2 ^ 64 = 18446744073709551616) as P64 by reflexivity. rewrite P64 in Bx, By. clear P64.
   destruct (msgp_uint_cases x) as [[Rx Ex] | [[Rx Ex] | [[Rx Ex] | [[Rx Ex] | [Rx Ex]]]]];
     destruct (msgp_uint_cases y) as [[Ry Ey] | [[Ry Ey] | [[Ry Ey] | [[Ry Ey] | [Ry Ey]]]]];
-    rewrite Ex, Ey in E; cbn [app] in E;
-    try (injection E; intros; subst; split; [reflexivity || (exfalso; lia) | reflexivity || (exfalso; lia)]; fail);
-    try (exfalso; injection E; intros; lia);
-    try (exfalso; discriminate E).
-  - injection E as E. apply (be_low_app_inj 2) in E; auto.
-    + change (256 ^ N.of_nat 2) with 65536. lia.
-    + change (256 ^ N.of_nat 2) with 65536. lia.
-  - injection E as E. apply (be_low_app_inj 4) in E; auto.
-    + change (256 ^ N.of_nat 4) with 4294967296. lia.
-    + change (256 ^ N.of_nat 4) with 4294967296. lia.
-  - injection E as E. apply (be_low_app_inj 8) in E; auto.
-    + change (256 ^ N.of_nat 8) with 18446744073709551616. lia.
-    + change (256 ^ N.of_nat 8) with 18446744073709551616. lia.
+    rewrite Ex, Ey in E; cbn [app] in E; clear Ex Ey;
+    pose proof (f_equal (hd 0) E) as Hh; cbn [hd] in Hh;
+    try (exfalso; clear E; lia).
+  - injection E as _ E. auto.
+  - injection E as E1 E2. auto.
+  - apply (f_equal (@tl N)) in E; cbn [tl] in E. apply (be_low_app_inj 2) in E; auto;
+      change (256 ^ N.of_nat 2) with 65536; lia.
+  - apply (f_equal (@tl N)) in E; cbn [tl] in E. apply (be_low_app_inj 4) in E; auto;
+      change (256 ^ N.of_nat 4) with 4294967296; lia.
+  - apply (f_equal (@tl N)) in E; cbn [tl] in E. apply (be_low_app_inj 8) in E; auto;
+      change (256 ^ N.of_nat 8) with 18446744073709551616; lia.
 Qed.
 
 Lemma pinj_uint : pinj P_uint.
@@ -80,7 +81,7 @@ Lemma opt_uint_inj x y : x < 2 ^ 64 -> y < 2 ^ 64 -> opt_uint x = opt_uint y -> 
 Proof.
   unfold opt_uint. intros Bx By E.
   destruct (x =? 0) eqn:X; destruct (y =? 0) eqn:Y; try discriminate; [lia|].
-  injection E as E.
+  apply Some_inj in E.
   assert (msgp_uint x ++ [] = msgp_uint y ++ []) as E' by now rewrite E.
   now destruct (msgp_uint_inj _ _ _ _ Bx By E').
 Qed.
@@ -106,7 +107,8 @@ Proof. reflexivity. Qed.
 
 Lemma msgp_name_inj n1 n2 x y : msgp_name n1 ++ x = msgp_name n2 ++ y -> n1 = n2 /\ x = y.
 Proof.
-  unfold msgp_name. cbn [app]. intro E. injection E as Hl E.
+  unfold msgp_name. cbn [app]. intro E.
+  pose proof (f_equal (hd 0) E) as Hl. apply (f_equal (@tl N)) in E. cbn [hd tl] in Hl, E.
   apply app_eq_len in E; auto. lia.
 Qed.
 
@@ -157,7 +159,8 @@ Lemma struct_inj l1 l2 r1 r2 :
   compat l1 l2 -> NoDup (map fst l1) ->
   msgp_struct l1 ++ r1 = msgp_struct l2 ++ r2 -> map snd l1 = map snd l2 /\ r1 = r2.
 Proof.
-  intros C ND E. rewrite !msgp_struct_eq in E. cbn [app] in E. injection E as Hn E.
+  intros C ND E. rewrite !msgp_struct_eq in E. cbn [app] in E.
+  pose proof (f_equal (hd 0) E) as Hn. apply (f_equal (@tl N)) in E. cbn [hd tl] in Hn, E.
   apply (body_inj _ _ C ND); auto. lia.
 Qed.
 
@@ -169,8 +172,9 @@ Definition ac_fields (m r : N) : list fld := [(n_mon, opt_uint m); (n_rwd, opt_u
 Definition P_ac (p : bytes) : Prop :=
   exists m r, m < 2 ^ 64 /\ r < 2 ^ 64 /\ p = msgp_struct (ac_fields m r).
 
+Ltac in_consts Q := repeat (destruct Q as [Q | Q]; [discriminate Q|]); exact Q.
 Ltac nodup_consts :=
-  repeat (constructor; [cbn [In]; intro Q; repeat (destruct Q as [Q | Q]; [discriminate Q|]); exact Q|]);
+  repeat (constructor; [cbn [In]; let Q := fresh "Q" in intro Q; in_consts Q |]);
   constructor.
 
 Lemma ac_compat m1 r1 m2 r2 :
@@ -178,8 +182,8 @@ Lemma ac_compat m1 r1 m2 r2 :
   compat (ac_fields m1 r1) (ac_fields m2 r2).
 Proof.
   intros. unfold ac_fields.
-  apply compat_cons with (P := P_uint); [exact pinj_uint | intros; eapply opt_uint_P; eauto ..|].
-  apply compat_cons with (P := P_uint); [exact pinj_uint | intros; eapply opt_uint_P; eauto ..|].
+  apply compat_cons with (P := P_uint); [exact pinj_uint | intros ? Hp; eapply opt_uint_P; [| exact Hp]; assumption ..|].
+  apply compat_cons with (P := P_uint); [exact pinj_uint | intros ? Hp; eapply opt_uint_P; [| exact Hp]; assumption ..|].
   constructor.
 Qed.
 
@@ -220,7 +224,7 @@ Proof.
   intros B1 B2 B3 B4. rewrite !enc_algocount_eq.
   destruct ((m1 =? 0) && (r1 =? 0)) eqn:Z1; destruct ((m2 =? 0) && (r2 =? 0)) eqn:Z2; intro E; try discriminate.
   - lia.
-  - injection E as E.
+  - apply Some_inj in E.
     assert (msgp_struct (ac_fields m1 r1) ++ [] = msgp_struct (ac_fields m2 r2) ++ []) as E' by now rewrite E.
     destruct (ac_struct_inj _ _ _ _ _ _ B1 B2 B3 B4 E') as [-> [-> _]]. auto.
 Qed.
@@ -242,10 +246,10 @@ Proof. reflexivity. Qed.
 Lemma tot_compat t1 t2 : wf_totals t1 -> wf_totals t2 -> compat (tot_fields t1) (tot_fields t2).
 Proof.
   intros (A1 & A2 & A3 & A4 & A5 & A6 & A7) (B1 & B2 & B3 & B4 & B5 & B6 & B7). unfold tot_fields.
-  apply compat_cons with (P := P_ac); [exact pinj_ac | intros; eapply enc_algocount_P; [| |eauto]; auto ..|].
-  apply compat_cons with (P := P_ac); [exact pinj_ac | intros; eapply enc_algocount_P; [| |eauto]; auto ..|].
-  apply compat_cons with (P := P_ac); [exact pinj_ac | intros; eapply enc_algocount_P; [| |eauto]; auto ..|].
-  apply compat_cons with (P := P_uint); [exact pinj_uint | intros; eapply opt_uint_P; eauto ..|].
+  apply compat_cons with (P := P_ac); [exact pinj_ac | intros ? Hp; eapply enc_algocount_P; [| | exact Hp]; assumption ..|].
+  apply compat_cons with (P := P_ac); [exact pinj_ac | intros ? Hp; eapply enc_algocount_P; [| | exact Hp]; assumption ..|].
+  apply compat_cons with (P := P_ac); [exact pinj_ac | intros ? Hp; eapply enc_algocount_P; [| | exact Hp]; assumption ..|].
+  apply compat_cons with (P := P_uint); [exact pinj_uint | intros ? Hp; eapply opt_uint_P; [| exact Hp]; assumption ..|].
   constructor.
 Qed.
 
@@ -274,3 +278,39 @@ Proof.
   assert (enc_totals t1 ++ [] = enc_totals t2 ++ []) as E' by now rewrite E.
   now destruct (enc_totals_prefix_inj _ _ _ _ W1 W2 E').
 Qed.
+
+(* ---------- the label in terms of the totals themselves; no "same version" premise: the
+   self-delimiting totals encoding also separates the V6 / V7 / current label formats ---------- *)
+Section LabelTotals.
+  Variable H : bytes -> bytes.
+
+  Lemma label_buffer_totals_inj bh1 r1 t1 x1 bh2 r2 t2 x2 :
+    length bh1 = 32%nat -> length bh2 = 32%nat -> length r1 = 32%nat -> length r2 = 32%nat ->
+    wf_totals t1 -> wf_totals t2 ->
+    Forall (fun d => length d = 32%nat) x1 -> Forall (fun d => length d = 32%nat) x2 ->
+    label_buffer bh1 r1 (enc_totals t1) x1 = label_buffer bh2 r2 (enc_totals t2) x2 ->
+    bh1 = bh2 /\ r1 = r2 /\ t1 = t2 /\ x1 = x2.
+  Proof.
+    intros B1 B2 R1 R2 W1 W2 F1 F2 E. unfold label_buffer in E.
+    apply app_eq_len in E as [-> E]; [|congruence].
+    apply app_eq_len in E as [-> E]; [|congruence].
+    apply enc_totals_prefix_inj in E as [-> E]; auto.
+    repeat split; auto. apply concat32_inj; auto.
+    apply (f_equal (@length N)) in E. rewrite !concat32_length in E; auto. lia.
+  Qed.
+
+  Lemma label_inj_totals bh1 r1 t1 x1 bh2 r2 t2 x2 :
+    length bh1 = 32%nat -> length bh2 = 32%nat -> length r1 = 32%nat -> length r2 = 32%nat ->
+    wf_totals t1 -> wf_totals t2 ->
+    Forall (fun d => length d = 32%nat) x1 -> Forall (fun d => length d = 32%nat) x2 ->
+    label_digest H bh1 r1 (enc_totals t1) x1 = label_digest H bh2 r2 (enc_totals t2) x2 ->
+    (bh1 = bh2 /\ r1 = r2 /\ t1 = t2 /\ x1 = x2) \/
+    CatchpointHashSpec.hash_collision H (label_buffer bh1 r1 (enc_totals t1) x1)
+                                        (label_buffer bh2 r2 (enc_totals t2) x2).
+  Proof.
+    intros B1 B2 R1 R2 W1 W2 F1 F2 E. unfold label_digest in E.
+    destruct (bytes_eq_dec (label_buffer bh1 r1 (enc_totals t1) x1) (label_buffer bh2 r2 (enc_totals t2) x2)) as [Q | Q].
+    - left. now apply label_buffer_totals_inj.
+    - right. split; auto.
+  Qed.
+End LabelTotals.
